@@ -15,7 +15,7 @@ ONLY = set(sys.argv[2:])
 M = [
  ("M01", ["C01"], "shuttle-engine/src/scheduler/data/random.rs", "        self.rng = Pcg64Mcg::seed_from_u64(next_seed);\n", "", "RandomDataSource::reinitialize does not re-seed its rng"),
  ("M02", ["C01"], "shuttle-engine/src/runtime/execution.rs", "            CurrentSchedule::push_random();\n", "", "random draws are not recorded in the schedule"),
- ("M03", ["C02", "C05"], "shuttle-std/src/sync/condvar.rs", "    pub fn notify_all(&self) {\n        // We don't need to yield here because notify_all doesn't block\n        thread::switch();", "    pub fn notify_all(&self) {", "no scheduling point before Condvar::notify_all"),
+ ("M03", ["C02", "C05"], "shuttle-std/src/sync/condvar.rs", "    pub fn notify_all(&self) {\n        thread::switch();\n", "    pub fn notify_all(&self) {\n", "no scheduling point before Condvar::notify_all"),
  ("M04", ["C02"], "shuttle-std/src/thread.rs", "    pub fn unpark(&self) {\n        thread::switch();\n", "    pub fn unpark(&self) {\n", "no scheduling point before Thread::unpark"),
  ("M05", ["C03", "C05"], "shuttle-engine/src/runtime/execution.rs", "            any_runnable |= is_runnable;", "            any_runnable |= is_runnable || task.can_spuriously_wakeup();", "spuriously wakeable tasks count as runnable for the deadlock verdict"),
  ("M06", ["C03"], "shuttle-engine/src/runtime/execution.rs", "                                    .filter(|t| !t.finished())\n                                    .map(|t| t.format_for_deadlock())", "                                    .filter(|t| t.blocked())\n                                    .map(|t| t.format_for_deadlock())", "deadlock report lists only blocked tasks"),
@@ -39,11 +39,11 @@ M = [
  ("M24", ["C16"], "shuttle-engine/src/scheduler/serialization.rs", "    let task_id_bits = task_id_bits.max(1);\n", "", "task id width may be 0 in the serialised form"),
  ("M25", ["C17"], "shuttle-engine/src/runtime/task/mod.rs", "        if !was_woken {\n            self.sleep();\n        }", "        let _ = was_woken;\n        self.sleep();", "sleep_unless_woken ignores a wake that arrived during the poll"),
  ("M26", ["C17"], "shuttle-engine/src/runtime/task/mod.rs", "        if self.finished() {\n            return;\n        }\n        self.wake();", "        if self.finished() {\n            return;\n        }", "abort sets the flag but does not wake the task"),
- ("M27", ["C18"], "shuttle-engine/src/future/batch_semaphore.rs", "                if index == 0 {\n                    state.unblock_waiters_from_front();\n                }", "", "cancelling the head waiter of a fair semaphore does not grant the next one"),
- ("M28", ["C18"], "shuttle-engine/src/future/batch_semaphore.rs", "        } else if self.waiter.has_permits.load(Ordering::SeqCst) && !self.completed {\n            self.semaphore.release(self.waiter.num_permits);\n        }", "        }", "an Acquire dropped after being granted does not give its permits back"),
+ ("M27", ["C18"], "shuttle-engine/src/future/batch_semaphore.rs", "                    state.unblock_waiters_from_front();\n                }\n            }\n            Fairness::Unfair => {}", "                }\n            }\n            Fairness::Unfair => {}", "cancelling the head waiter of a fair semaphore does not grant the next one"),
+ ("M28", ["C18"], "shuttle-engine/src/future/batch_semaphore.rs", "            self.semaphore.release(self.waiter.num_permits);\n        }\n    }\n}", "            let _ = self.waiter.num_permits;\n        }\n    }\n}", "an Acquire dropped after being granted does not give its permits back"),
  ("M29", ["C12"], "shuttle-engine/src/runtime/failure.rs", "        FailurePersistence::None => {}\n", "        FailurePersistence::None => {\n            let serialized_schedule = serialize_schedule(&CurrentSchedule::get_schedule());\n            eprintln!(\"failing schedule:\\n\\\"\\n{serialized_schedule}\\n\\\"\\npass that string to `shuttle::replay` to replay the failure\");\n        }\n", "a schedule is printed although persistence is disabled"),
  ("M30", ["C08", "C03"], "shuttle-engine/src/runtime/execution.rs", "            if is_runnable {\n                all_runnable_detached &= task.detached;\n                self.runnable_tasks.push(task as *const Task);", "            if is_runnable && task_id.0 != 2 {\n                all_runnable_detached &= task.detached;\n                self.runnable_tasks.push(task as *const Task);", "task 2 is never offered to the scheduler"),
- ("M31", ["C04", "C03"], "shuttle-std/src/sync/rwlock.rs", "                (RwLockType::Read, RwLockHolder::Read(readers)) => {\n                    acquired = readers.insert(me);\n                }", "                (RwLockType::Read, RwLockHolder::Read(readers)) => {\n                    readers.insert(me);\n                }", "re-entrant try_read succeeds"),
+ ("M31", ["C04", "C03"], "shuttle-std/src/sync/rwlock.rs", "                    acquired = readers.insert(me);", "                    readers.insert(me);", "re-entrant try_read succeeds"),
  ("M32", ["C06"], "shuttle-std/src/sync/mpsc.rs", "        let item = state.messages.remove(0);", "        let n = state.messages.len();\n        let item = state.messages.remove(n - 1);", "receive takes the newest message (LIFO)"),
  ("M33", ["C14", "C05"], "shuttle-std/src/sync/once.rs", "        StorageKey(once.id(), 0x2)", "        StorageKey(1, 0x2)", "all Once cells share one state slot"),
  ("M34", ["C01"], "shuttle-schedulers/src/replay.rs", "            ScheduleStep::Random => {\n                self.steps += 1;\n                self.data_source.next_u64()\n            }", "            ScheduleStep::Random => {\n                self.steps += 1;\n                self.data_source.next_u64() ^ 1\n            }", "replayed random draws differ in the lowest bit"),
